@@ -93,6 +93,7 @@ OPTIONS = [None, -1, 1, 2, 3]
 INDEXES = [
     dict(zids={Z2: "a.zo", Z3: "sub/b.zo", Z1: "own.zo"}, ids={"g": ["n/g.zo"], "none": []}, rids={"r": ["r.zo"], "dup": ["d1.zo", "d2.zo"]}),
     dict(zids={Z1: "own.zo"}, ids={"g": ["g1.zo", "g2.zo"]}, rids={"r": []}),
+    dict(zids={Z2: "a.zo"}, ids={"g": ["g1.zo", "g1.zo"]}, rids={"r": ["r.zo"], "dup": ["d1.zo", "d1.zo"]}),   # an ID twice on ONE page
 ]
 
 
